@@ -11,7 +11,7 @@ from vlib import boot
 from vlib.harness.runner import Result, Part, exc_signature
 from vlib.ref import netaddr
 from vlib.sim.core import Sim, Mcu, MS, US, SimHorizon
-from vlib.sim.radio import Chip, IndexedMedium
+from vlib.sim.radio import Chip, IndexedMedium, Medium
 from vlib.sim.shims import SimSpiDev, SimPin
 
 PROPERTY = "C04"
@@ -44,14 +44,54 @@ def build(L, cfg):
         chip.trace_on = False
         n = L.RF24Network(SimSpiDev(chip), SimPin(), SimPin(chip, "ce"), a)
         if custom:
-            n.address_prefix = bytearray([cfg["prefix"]])
-            n.address_suffix = bytearray(cfg["suffix"])
-            n.allow_multicast = bool(cfg["multicast"])
-            n.node_address = a
+            rekey_node(n, a, cfg["prefix"], cfg["suffix"], cfg["multicast"], cfg.get("keying"))
         nodes[a] = (n, chip)
     med.build_index()
     sim.advance(5 * MS)
+    # a second network in the same program, left at the default address bytes (its radios are on a medium of their own)
+    med.twins = {}
+    med2 = Medium(sim)
+    for a in cfg.get("twins", ()):
+        chip = Chip(sim, med2, "t%o" % a)
+        chip.trace_on = False
+        med.twins[a] = (L.RF24Network(SimSpiDev(chip), SimPin(), SimPin(chip, "ce"), a), chip, med2)
     return sim, med, nodes
+
+
+def rekey_node(n, a, prefix, suffix, multicast, keying=None):
+    """the documented way to change the address bytes: set the attributes, then re-assign node_address; the attributes
+    are bytearrays, so an application may also edit them element by element ('inplace')"""
+    if keying == "inplace":
+        n.address_prefix[0] = prefix
+        for i, b in enumerate(suffix):
+            n.address_suffix[i] = b
+    else:
+        n.address_prefix = bytearray([prefix])
+        n.address_suffix = bytearray(suffix)
+    n.allow_multicast = bool(multicast)
+    n.node_address = a
+
+
+def check_twins(res, med, when):
+    for a, (n, chip, med2) in med.twins.items():
+        got = [chip.pipe_addr(p) for p in range(6)]
+        want = netaddr.listening_addresses(a, True, None)
+        if got != want:
+            p = [i for i in range(6) if got[i] != want[i]][0]
+            res.fail("C04/second-network-address-differs/" + when, "a node %o of a second, default-keyed network listens on %s on pipe %d, "
+                     "reference %s" % (a, got[p].hex(), p, want[p].hex()))
+            return
+        if a:
+            n0 = len(med2.log)
+            n.write(boot.lib().Frame(boot.lib().Header(0, 1), b"tw"))
+            sent = [e for e in med2.log[n0:] if not e["ack"]]
+            want_tx = netaddr.hop_address(a, netaddr.parent(a), True)
+            if not sent or sent[0]["addr"] != want_tx:
+                res.fail("C04/second-network-address-differs/" + when, "node %o of a second, default-keyed network transmits to %s, reference %s" % (
+                    a, sent[0]["addr"].hex() if sent else None, want_tx.hex()))
+                return
+    if med.twins:
+        res.label("second-network-checked")
 
 
 def run_case(case):
@@ -65,6 +105,7 @@ def run_case(case):
         res.fail(exc_signature("C04/construction-raises", e), repr(e))
         return res
     pop = sorted(nodes)
+    check_twins(res, med, "after-construction")
     name2addr = {"%o" % a: a for a in pop}
     tag = "" if cfg["population"] == "all" and px == 0xCC and sx == netaddr.DEFAULT_SUFFIX else "/custom-bytes"
     if not mc:
@@ -163,11 +204,8 @@ def run_case(case):
         if phase == 1:
             px, sx, mc = rekey["prefix"], tuple(rekey["suffix"]), bool(rekey["multicast"])
             for a in pop:
-                n = nodes[a][0]
-                n.address_prefix = bytearray([px])
-                n.address_suffix = bytearray(sx)
-                n.allow_multicast = mc
-                n.node_address = a
+                rekey_node(nodes[a][0], a, px, sx, mc, rekey.get("keying"))
+            check_twins(res, med, "after-rekey")
             med.build_index()
             sim.advance(2 * MS)
             tag = "/after-rekey"
@@ -293,11 +331,13 @@ def _drawn_strategy():
             c = par | (draw(st.integers(1, 5)) << (3 * netaddr.level(par)))
             if c not in pop:
                 pop.append(c)
-        cfg = {"prefix": bs[0], "suffix": bs[1:], "multicast": draw(st.booleans()), "population": sorted(pop)}
+        keying = draw(st.sampled_from(["assign", "inplace"]))
+        twins = draw(st.sampled_from([[], [0, 0o1, 0o23], [0o5, 0o314]]))
+        cfg = {"prefix": bs[0], "suffix": bs[1:], "multicast": draw(st.booleans()), "population": sorted(pop), "keying": keying, "twins": twins}
         mode = draw(st.sampled_from(["route-full", "route-full", "registers", "multicast", "route-rekey"]))
         if mode == "route-rekey":
-            return {"cfg": dict(DEFAULT_CFG, population=sorted(pop)), "mode": mode, "srcs": sorted(pop),
-                    "rekey": {"prefix": bs[0], "suffix": bs[1:], "multicast": cfg["multicast"]}}
+            return {"cfg": dict(DEFAULT_CFG, population=sorted(pop), twins=twins), "mode": mode, "srcs": sorted(pop),
+                    "rekey": {"prefix": bs[0], "suffix": bs[1:], "multicast": cfg["multicast"], "keying": keying}}
         return {"cfg": cfg, "mode": mode, "srcs": sorted(pop) if mode != "registers" else []}
 
     return case()
@@ -314,7 +354,9 @@ def _rekey_fixed():
     pop = [0, 0o1, 0o2, 0o11, 0o21, 0o12, 0o111, 0o211]
     for px, sx, mc in ((0x5A, [0xA1, 0xB2, 0xC3, 0xD4, 0xE5, 0xF6], True), (0x11, [0x22, 0x33, 0x44, 0x55, 0x66, 0x77], False),
                        (0xCC, list(netaddr.DEFAULT_SUFFIX), False)):
-        yield {"cfg": dict(DEFAULT_CFG, population=pop), "mode": "route-rekey", "srcs": pop, "rekey": {"prefix": px, "suffix": sx, "multicast": mc}}
+        for keying in ("assign", "inplace"):
+            yield {"cfg": dict(DEFAULT_CFG, population=pop, twins=[0, 0o1, 0o23]), "mode": "route-rekey", "srcs": pop,
+                   "rekey": {"prefix": px, "suffix": sx, "multicast": mc, "keying": keying}}
 
 
 def parts(tier):
